@@ -45,9 +45,29 @@ impl Conv {
 }
 
 #[derive(Default)]
+struct EscapeFinder {
+    escapes: usize,
+}
+impl<'ast> Visit<'ast> for EscapeFinder {
+    fn visit_expr_return(&mut self, _: &'ast syn::ExprReturn) {
+        self.escapes += 1;
+    }
+    fn visit_expr_break(&mut self, _: &'ast syn::ExprBreak) {
+        self.escapes += 1;
+    }
+    fn visit_expr_continue(&mut self, _: &'ast syn::ExprContinue) {
+        self.escapes += 1;
+    }
+    fn visit_expr_try(&mut self, _: &'ast syn::ExprTry) {
+        self.escapes += 1;
+    }
+}
+
+#[derive(Default)]
 struct LoopFinder {
     loops: Vec<(usize, usize, usize)>, // (expr start, body open brace, expr end)
     closures: usize,
+    vd: Vec<String>, // desugaring candidates (closed list, DESIGN.md 2.1b)
 }
 impl<'ast> Visit<'ast> for LoopFinder {
     fn visit_expr_while(&mut self, e: &'ast syn::ExprWhile) {
@@ -71,6 +91,30 @@ impl<'ast> Visit<'ast> for LoopFinder {
     fn visit_expr_closure(&mut self, e: &'ast syn::ExprClosure) {
         self.closures += 1;
         syn::visit::visit_expr_closure(self, e);
+    }
+    fn visit_expr_method_call(&mut self, e: &'ast syn::ExprMethodCall) {
+        // D7: RECV.map_err(|_| { STMTS; TAIL })   (closure ignores its argument, body has no return/break/continue/?)
+        if e.method == "map_err" && e.args.len() == 1 {
+            if let syn::Expr::Closure(c) = &e.args[0] {
+                let ignores = c.inputs.len() == 1 && matches!(c.inputs[0], syn::Pat::Wild(_));
+                if let (true, syn::Expr::Block(b)) = (ignores, &*c.body) {
+                    let mut ef = EscapeFinder::default();
+                    ef.visit_block(&b.block);
+                    if let (0, Some(syn::Stmt::Expr(tail, None))) = (ef.escapes, b.block.stmts.last()) {
+                        let call = e.span().byte_range();
+                        let recv = e.receiver.span().byte_range();
+                        let open = b.block.brace_token.span.open().byte_range().start;
+                        let close = b.block.brace_token.span.close().byte_range().start;
+                        let t = tail.span().byte_range();
+                        self.vd.push(format!(
+                            "{{\"rule\":\"D7\",\"call\":[{},{}],\"recv\":[{},{}],\"block\":[{},{}],\"tail\":[{},{}]}}",
+                            call.start, call.end, recv.start, recv.end, open, close, t.start, t.end
+                        ));
+                    }
+                }
+            }
+        }
+        syn::visit::visit_expr_method_call(self, e);
     }
 }
 
@@ -150,6 +194,7 @@ impl Out {
             let _ = write!(j, "[{},{},{}]", a, b, c);
         }
         j.push(']');
+        let _ = write!(j, ",\"vd\":[{}]", lf.vd.join(","));
         if let Some((hs, he, ce)) = container {
             let _ = write!(j, ",\"container\":[{},{},{}]", hs, he, ce);
         }
